@@ -50,7 +50,8 @@ Inductive opk :=
 | GetDefaults
 | Dump (d : option dv) (corrupt skip_none skip_default skip_validation : bool)   (* d: the value of d in cfg *)
 | Validate (d : option dv) (corrupt : bool)
-| Instantiate.
+| Instantiate
+| PArgsKw (env : option bool) (dflt : bool) (argv : list tok).   (* parse_args(argv, env=env, defaults=dflt) *)
 Record op := { op_p : nat; op_k : opk }.
 
 (* ---- which of the proposed repairs the tree under test contains (all false = the pinned tree) ----
@@ -83,7 +84,10 @@ Definition init (n : nat) : state :=
 (* ---- outcomes: the path a call took ---- *)
 Inductive errk := EPre | EStaleKey | EBroken | EPrintFail | EPost | EHelpArgs | EUnknown (k : str).
 Inductive out :=
-| OOk (shtab_key : bool) (d : option dv)    (* d: the value of d in the result *)
+| OOk (shtab_key : bool) (d : option dv) (subkw : option (option bool * bool))
+    (* d: the value of d in the result; subkw: the (env, defaults) keywords the sub-command parser was called
+       with when the command line named a sub-command — READ from the parse_kwargs context variable
+       (_actions.py:680), they decide which defaults / environment values the sub-command namespace holds *)
 | OErr (e : errk)
 | OExc
 | OExit2
@@ -384,11 +388,11 @@ Definition req_ok (D : decl) (sel : option str) (c : ictx) : bool :=
 Definition final_out (D : decl) (sel : option str) (c : ictx) : out :=
   match ic_unknown c with
   | Some k => OErr (EUnknown k)
-  | None => if req_ok D sel c then OOk (ic_shtab_key c) (ic_d c) else OErr EPost
+  | None => if req_ok D sel c then OOk (ic_shtab_key c) (ic_d c) None else OErr EPost
   end.
 (* did the call get as far as re-checking the values (check_values reaches d: no unknown key before it) *)
 Definition validated (o : out) : bool :=
-  match o with OOk _ _ | OErr EPost => true | _ => false end.
+  match o with OOk _ _ _ | OErr EPost => true | _ => false end.
 (* sub_add_kwargs["default"] of d after a call that ended in context c: the value of d re-checked by the final
    validation (prev_val = the value itself), else the last write of the call, else what was there *)
 Definition dd_after (fx : fixes) (old : option dv) (c : ictx) (o : out) : option dv :=
@@ -410,9 +414,10 @@ Definition dk_after (pd : pdecl) (skip_validation skip_none skip_default : bool)
 (* process-wide variables as threaded through one call *)
 Record cvars := { cv_pk : option (option bool * bool); cv_sap : option label; cv_dk : option (bool * bool) }.
 
-(* a field of d given on the command line goes through the throw-away class parser of Data: subclass_arg_parser
-   is left pointing at it *)
-Definition sap_inner (cv : cvars) : cvars := {| cv_pk := cv_pk cv; cv_sap := Some LInner; cv_dk := cv_dk cv |}.
+(* a field of d given on the command line goes through the throw-away class parser of Data, by ITS parse_args:
+   subclass_arg_parser is left pointing at it and parse_kwargs holds the keywords of that inner call (env=None,
+   defaults=True) — a sub-command named later on the same command line is parsed with those *)
+Definition sap_inner (cv : cvars) : cvars := {| cv_pk := Some (None, true); cv_sap := Some LInner; cv_dk := cv_dk cv |}.
 
 (* print_config_if_requested (_actions.py:280-290) on the ROOT parser; `has x` says whether cfg has a
    namespace for sub-command x, `sel` whether cfg selects a sub-command.  None = nothing requested, go on.
@@ -509,16 +514,17 @@ Definition help_rest_ok (cname : str) (ps : list (str * kind)) (rest : list tok)
    Returns: how the scan ended, local context, unknown-arguments flag, request, explicit sub-command,
    process-wide variables, sub-parser argv written, help_skip written. *)
 Record scan_out := { so_res : sres; so_c : ictx; so_unk : bool; so_pend : pending; so_chosen : option str;
-                     so_cv : cvars; so_subargs : option (str * list tok); so_hs : bool }.
+                     so_cv : cvars; so_subargs : option (str * list tok); so_hs : bool;
+                     so_subkw : option (option bool * bool) }.   (* parse_kwargs as READ by the sub-command action *)
 
 Fixpoint scan_root (fx : fixes) (dd0 : option dv) (D : decl) (i : nat) (hs : bool) (toks : list tok) (c : ictx)
   (unk : bool) (pend : pending) (cv : cvars) : scan_out :=
   let stopc cx cvx o := {| so_res := SStop o; so_c := cx; so_unk := unk; so_pend := pend; so_chosen := None;
-                           so_cv := cvx; so_subargs := None; so_hs := hs |} in
+                           so_cv := cvx; so_subargs := None; so_hs := hs; so_subkw := None |} in
   let stop o := stopc c cv o in
   match toks with
   | [] => {| so_res := SGo; so_c := c; so_unk := unk; so_pend := pend; so_chosen := None;
-             so_cv := cv; so_subargs := None; so_hs := hs |}
+             so_cv := cv; so_subargs := None; so_hs := hs; so_subkw := None |}
   | t :: r =>
       let pd := d_root D in
       match t with
@@ -526,7 +532,28 @@ Fixpoint scan_root (fx : fixes) (dd0 : option dv) (D : decl) (i : nat) (hs : boo
           if str_eqb n s_help then stop (OHelp [])
           else if str_eqb n s_print_config && pd_cfg pd
                then scan_root fx dd0 D i hs r c unk (PFull None no_flags) cv
-               else scan_root fx dd0 D i hs r c true pend cv
+               else
+          match is_suffix_help n, (match is_suffix_help n with Some h => find_cls h pd | None => None end) with
+          | Some h, Some co =>
+              (* --<cls>.help WITHOUT a value (nargs "?"): the help of the type itself (_actions.py:403-404).  A
+                 Callable type is no class: rejected by the subclass test before anything is written.
+                 get_args_after_opt (_actions.py:429-437) takes the item after a bare --<cls>.help for its value
+                 and drops it, whatever it is *)
+              if co_callable co then stop (OErr EPre)
+              else
+                let sk := if fx_hs fx then false else hs in
+                let ps := match cls_for_help (co_base co) sk (co_base co) with Some x => x | None => [] end in
+                match tl r with
+                | [] => {| so_res := SStop (OHelpCls sk); so_c := c; so_unk := unk; so_pend := pend;
+                           so_chosen := None; so_cv := cv; so_subargs := None; so_hs := hs; so_subkw := None |}
+                | r' =>
+                    let cv' := {| cv_pk := Some (None, true); cv_sap := Some LInner; cv_dk := cv_dk cv |} in
+                    {| so_res := SStop (if help_rest_ok h ps r' then OErr EPre else OErr EHelpArgs);
+                       so_c := c; so_unk := unk; so_pend := pend; so_chosen := None; so_cv := cv';
+                       so_subargs := None; so_hs := hs; so_subkw := None |}
+                end
+          | _, _ => scan_root fx dd0 D i hs r c true pend cv
+          end
       | TOpt n v =>
           if str_eqb n s_print_config && pd_cfg pd then
             match parse_flags (split_comma v []) no_flags with
@@ -545,13 +572,13 @@ Fixpoint scan_root (fx : fixes) (dd0 : option dv) (D : decl) (i : nat) (hs : boo
               | Some ps =>
                   match r with
                   | [] => {| so_res := SStop (OHelpCls sk); so_c := c; so_unk := unk; so_pend := pend;
-                             so_chosen := None; so_cv := cv; so_subargs := None; so_hs := hs' |}
+                             so_chosen := None; so_cv := cv; so_subargs := None; so_hs := hs'; so_subkw := None |}
                   | _ =>
                       (* uses parser.args; the throw-away parser's parse_args sets the context variables *)
                       let cv' := {| cv_pk := Some (None, true); cv_sap := Some LInner; cv_dk := cv_dk cv |} in
                       {| so_res := SStop (if help_rest_ok h ps r then OErr EPre else OErr EHelpArgs);
                          so_c := c; so_unk := unk; so_pend := pend; so_chosen := None; so_cv := cv';
-                         so_subargs := None; so_hs := hs' |}
+                         so_subargs := None; so_hs := hs'; so_subkw := None |}
                   end
               end
           | _, _ =>
@@ -581,7 +608,7 @@ Fixpoint scan_root (fx : fixes) (dd0 : option dv) (D : decl) (i : nat) (hs : boo
                               (match ic_d hc with Some _ => ic_d c' | None => None end) cv with
                 | Some (o, pend', cv') =>
                     {| so_res := SStop o; so_c := c'; so_unk := unk; so_pend := pend'; so_chosen := None;
-                       so_cv := cv'; so_subargs := None; so_hs := hs |}
+                       so_cv := cv'; so_subargs := None; so_hs := hs; so_subkw := None |}
                 | None => scan_root fx dd0 D i hs r c' unk pend cv
                 end
             end
@@ -601,7 +628,7 @@ Fixpoint scan_root (fx : fixes) (dd0 : option dv) (D : decl) (i : nat) (hs : boo
                               | SGo => if unk' then SStop (OErr EPre) else SGo
                               | x => x end in
                   {| so_res := res'; so_c := c'; so_unk := unk; so_pend := pend'; so_chosen := Some n;
-                     so_cv := cv'; so_subargs := Some (n, r); so_hs := hs |}
+                     so_cv := cv'; so_subargs := Some (n, r); so_hs := hs; so_subkw := cv_pk cv |}
               end
           end
       end
@@ -652,15 +679,19 @@ Definition dd_checked (fx : fixes) (old d : option dv) : option dv :=
 
 (* fx_pc: whatever way parse_args is left, no request survives it (on a normal return there is none anyway:
    _parse_common has consumed it).  fx = pinned is the pinned tree. *)
-Definition exec (fx : fixes) (D : decl) (i : nat) (v : view) (k : opk) : out * writes :=
-  match k with
-  | PArgs argv =>
+(* the keywords of the sub-command call show in a result *)
+Definition with_subkw (x : option (option bool * bool)) (o : out) : out :=
+  match o with OOk a b _ => OOk a b x | _ => o end.
+
+(* parse_args(argv, env=env, defaults=dflt); kw = (env, dflt), (None, true) when not given *)
+Definition exec_args (fx : fixes) (D : decl) (i : nat) (v : view) (kw : option bool * bool) (argv : list tok)
+  : out * writes :=
       (* handle_completions adds --print_shtab; self.args = argv; parse_kwargs and subclass_arg_parser set *)
-      let cv0 := {| cv_pk := Some (None, true); cv_sap := Some (LP i []); cv_dk := cv_dk (v_cv v) |} in
+      let cv0 := {| cv_pk := Some kw; cv_sap := Some (LP i []); cv_dk := cv_dk (v_cv v) |} in
       let so := scan_root fx (v_ddef v) D i (v_help_skip v) argv ic0 false (v_pending v) cv0 in
       let args := ([], argv) :: match so_subargs so with Some sa => [sa] | None => [] end in
       let fin o pend cv :=
-        (o, {| w_pending := if fx_pc fx then PNone else pend; w_shtab := true; w_help_skip := so_hs so;
+        (with_subkw (so_subkw so) o, {| w_pending := if fx_pc fx then PNone else pend; w_shtab := true; w_help_skip := so_hs so;
                w_ddef := dd_after fx (v_ddef v) (so_c so) o;
                w_cv := cv; w_args := args |}) in
       match so_res so with
@@ -670,11 +701,16 @@ Definition exec (fx : fixes) (D : decl) (i : nat) (v : view) (k : opk) : out * w
           else
             let '(o, pend, cv) := parse_common D (so_pend so) (so_chosen so) (so_c so) (so_cv so) in
             fin o pend cv
-      end
+      end.
+
+Definition exec (fx : fixes) (D : decl) (i : nat) (v : view) (k : opk) : out * writes :=
+  match k with
+  | PArgs argv => exec_args fx D i v (None, true) argv
+  | PArgsKw env dflt argv => exec_args fx D i v (env, dflt) argv
   | PObject items => exec_items fx D v UKeep items
   | PString items => exec_items fx D v UKeep items
   | PEnv items => exec_items fx D v UIgnore items
-  | GetDefaults => (OOk false None, keep v)
+  | GetDefaults => (OOk false None None, keep v)
   | Dump d corrupt sn sd sv =>
       let cvd f := {| cv_pk := cv_pk (v_cv v); cv_sap := cv_sap (v_cv v); cv_dk := f (cv_dk (v_cv v)) |} in
       let w cv := {| w_pending := v_pending v; w_shtab := v_shtab v; w_help_skip := v_help_skip v;
@@ -682,13 +718,13 @@ Definition exec (fx : fixes) (D : decl) (i : nat) (v : view) (k : opk) : out * w
       if corrupt && negb sv then (OExc, keep v)     (* k is re-checked (and rejected) before d *)
       else if sd && d_subreq D && negb (match d_subs D with [] => true | _ => false end)
            then (OExc, w (cvd (dk_after (d_root D) sv sn false)))     (* KeyError from the defaults, see consume *)
-           else (OOk false None, w (cvd (dk_after (d_root D) sv sn sd)))
+           else (OOk false None None, w (cvd (dk_after (d_root D) sv sn sd)))
   | Validate d corrupt =>
       if corrupt then (OExc, keep v)
-      else (OOk false None,
+      else (OOk false None None,
             {| w_pending := v_pending v; w_shtab := v_shtab v; w_help_skip := v_help_skip v;
                w_ddef := dd_checked fx (v_ddef v) d; w_cv := v_cv v; w_args := [] |})
-  | Instantiate => (OOk false None, keep v)
+  | Instantiate => (OOk false None None, keep v)
   end.
 
 (* ---- the state machine ---- *)
@@ -739,15 +775,17 @@ Definition tok_mentions_d (t : tok) : bool :=
   match t with TOpt n _ => key_is_d n | TCfg items => items_mention_d items | _ => false end.
 Definition op_mentions_d (k : opk) : bool :=
   match k with
-  | PArgs argv => existsb tok_mentions_d argv
+  | PArgs argv | PArgsKw _ _ argv => existsb tok_mentions_d argv
   | PObject items | PString items | PEnv items => items_mention_d items
   | _ => false
   end.
 Definition is_some {A} (x : option A) : bool := match x with Some _ => true | None => false end.
 Definition tok_is_clshelp (t : tok) : bool :=
-  match t with TOpt n _ => match is_suffix_help n with Some _ => true | None => false end | _ => false end.
+  match t with
+  | TOpt n _ | TFlag n => match is_suffix_help n with Some _ => true | None => false end
+  | _ => false end.
 Definition op_has_clshelp (k : opk) : bool :=
-  match k with PArgs argv => existsb tok_is_clshelp argv | _ => false end.
+  match k with PArgs argv | PArgsKw _ _ argv => existsb tok_is_clshelp argv | _ => false end.
 
 (* 0 = inside the guard; 1 = a print_config request is pending on the target parser;
    2 = the call names the key print_shtab on a parser that has acquired --print_shtab (and the key is read);
